@@ -34,11 +34,12 @@ PROPS = {
              (24000, 40), (600000, 600), [ISAL_ASSUME],
              expect_probes=["repair.dest-missing", "repair.dest-available", "repair.dest-out-of-range.refused"]),
     "C05": P("fault_enumeration",
-             "enumeration by run index of the 24191 (table, erasure set |E|<hd) pairs of the 38 flat-XOR tables through a seed-keyed permutation (quick: stratified prefix touching every table and every erasure size; "
-             "thorough: all pairs, both kernel flavours), each with random payload length, GET and REPAIR of every lost index; every 12th run sweeps a slice of the (k,m,hd) box 0..33 x 0..8 x 0..7 for refusal of unsupported shapes; "
+             "enumeration by run index of the 24191 (table, erasure set |E|<hd) pairs of the 38 flat-XOR tables through a seed-keyed permutation, each pair on both kernel flavours (run indexes 2j, 2j+1), after a stratified head touching every table and every erasure size; "
+             "both tiers cover all 48458 (pair, flavour) cells (24191 non-empty erasure sets + the 38 empty ones, x 2 flavours) (thorough several times with other data), each with random payload length, GET and REPAIR of every lost index; every 12th index pair sweeps a slice of the (k,m,hd) box 0..33 x 0..8 x 0..7 for refusal of unsupported shapes; "
              "parity payloads compared with golden equations after every PUT",
-             (9000, 40), (110000, 600), [],
-             expect_probes=["get.within-tolerance", "repair.dest-missing"]),
+             (56000, 45), (240000, 600), [],
+             expect_probes=["get.within-tolerance", "repair.dest-missing"],
+             cells_total={"xor": 2 * 24229, "box": 34 * 9 * 8}),
     "C06": P("exploration",
              "seeded plans: one instance (rs_vand / isa_l / each flat-XOR table by run index), 8-30 fragments_needed queries with disjoint (rebuild, unreachable) lists within and beyond tolerance in random order, "
              "input lists right-aligned against a guard page, output pre-poisoned; half the answers are confirmed by reconstructing from the answer alone",
@@ -48,7 +49,8 @@ PROPS = {
              "seeded plans: stored fragment headers damaged by single-bit flips (bit = run index mod 640: all 640 swept), byte overwrites, bursts, torn prefixes, version/magic rewrites with and without re-sealing, "
              "legacy-CRC seal, foreign-endian rewrite; judged through get_fragment_metadata, decode and reconstruct against the reference acceptance predicate",
              (16000, 40), (400000, 600), [],
-             expect_probes=["scrub.ref-accept", "scrub.ref-reject", "c09.consume.refused"]),
+             expect_probes=["scrub.ref-accept", "scrub.ref-reject", "c09.consume.refused"],
+             cells_total={"bit": 640}),
     "C10": P("exploration",
              "seeded plans with ct=CRC32: environment switch set to one of 10 values before PUT/REPAIR and flipped between operations; payload bit flips (every bit of short payloads by run index), bursts, byte edits, torn and stale payloads; "
              "stored CRCs compared with bitwise standard / historical CRC models, mismatch flag compared with the reference",
@@ -77,7 +79,8 @@ PROPS = {
              "size-query/encode/decode/reconstruct/destroy cycle; the other runs issue malformed calls inside a live history, the first 14 of each run enumerating by run index the finite grid "
              "(15 entry points x {live,dead,never-issued descriptor} x NULL/boundary masks x 16 variants = 5232 calls), valid traffic interleaved",
              (9000, 40), (200000, 600), [ISAL_ASSUME],
-             expect_probes=["badcall.refused.invalid-argument", "badcall.refused.dead-descriptor", "badcall.refused.unknown-descriptor", "create.refused", "cycle.done.liberasurecode_rs_vand", "cycle.done.flat_xor_hd", "cycle.done.null"]),
+             expect_probes=["badcall.refused.invalid-argument", "badcall.refused.dead-descriptor", "badcall.refused.unknown-descriptor", "create.refused", "cycle.done.liberasurecode_rs_vand", "cycle.done.flat_xor_hd", "cycle.done.null"],
+             cells_total={"call": 5232}),
     "C14": P("exploration",
              "seeded histories over 6 slots (length 10-60, thorough to 200): creates of every available backend incl. null, failed creates (unsupported shape, unavailable backend, injected init failure), destroys in any order, "
              "destroys/uses of dead and never-issued descriptors against every entry point, data-path operations and canaries on live instances, descriptor counter preset just below INT_MAX with live descriptors above the wrap point; "
@@ -99,7 +102,7 @@ PROPS = {
              "even run indexes enumerate a scripted workload (create, 3 encode, 4 decode with a data fragment lost, 3 reconstruct, 3 fragments_needed, destroy; 14 fail positions x 2 modes [fail instead of / after the real work] x 5 backends = 140 cases), "
              "the failed call is then repeated with the fault off and must succeed; odd run indexes attach failures at random; ISA-L inversion failures come from the stub; a sibling instance must stay unaffected",
              (6000, 30), (150000, 400), [ISAL_ASSUME],
-             expect_probes=[]),
+             expect_probes=[], cells_total={"fail": 140}),
     "C18": P("exploration",
              "seeded thread plans: 2-4 tasks (thorough to 16) each with 3-8 operations, either through one shared descriptor (decode/reconstruct/query/encode), or creating, using and destroying their own instances (first-ever and subsequent creates, mixed backends, RS instances sharing GF tables), or both; "
              "a seeded scheduler (uniform random walk, sticky, PCT depth 1-3, run-to-completion with 1-3 preemptions) decides which parked thread runs at every yield point (operation boundaries, library lock operations, guarded hook sites at registry / counter / GF-table accesses); "
